@@ -2,7 +2,7 @@
 EXTENDS Config, Json
 CONSTANT K
 VARIABLE c
-Init == c \in PairCases \cup BinCases(K)
+Init == c \in {[kind |-> "cfg", cfg |-> x] : x \in PairCases \cup BinCases(K)} \cup {[kind |-> "proc", cfg |-> x] : x \in ProcCases}
 Next == UNCHANGED c
-Emit == PrintT("CASE " \o ToJson([kind |-> "cfg", cfg |-> c]))
+Emit == PrintT("CASE " \o ToJson(c))
 =============================================================================
